@@ -125,4 +125,25 @@ CLAIMED["C16"] = {
   "note": "Trusted: lib/jsight.py expected_ast and the harness' JSON rendering of ASTNode/RuleASTNode. This is differential testing against a specification-derived oracle, labelled partial.",
   "technique": "differential check of GetAST against an oracle computed from the abstract schema (partial: no theorem)",
 }
+CLAIMED["C02"] = {
+  "text": "PARTIAL. Proved: the numeric rules are exact on every numeral (C02_min_exact, C02_max_exact, C02_precision_iff re-export the C10 theorems: min/max/exclusive verdicts are "
+          "Qcompare on exact values, precision p accepts iff value*10^p is an integer); C02_date_ok_iff (the model of time.Parse(\"2006-01-02\") accepts s iff s = YYYY-MM-DD of a valid "
+          "proleptic-Gregorian date with year <= 9999, incl. leap-year rule) and C02_uuid_ok_shapes (exactly the four shapes of google/uuid's parser). The remaining rules (lengths, regex, "
+          "enum, const, email/uri/datetime, nullable-null, inert false rules, admissible kinds) are decided through the API against a python transcription of the statement on boundary "
+          "probes: bound-ulp/bound/bound+ulp in several spellings (trailing zeros, exponent forms, negative zero), byte lengths n-1/n/n+1 in ASCII, multi-byte and escaped strings, kind "
+          "look-alikes for enum, every year/month/day boundary, the uuid shapes; every rule set also with nullable:true (null must be accepted) and with nullable:false/const:false added "
+          "(verdicts unchanged). Date/uuid models are additionally run against the same oracle.",
+  "note": "Trusted: Coq kernel; python oracle lib/check_c02.py (regex via python re on a common subset with $ mapped to \\Z; email/uri/datetime only on clearly valid/invalid probes; string length in "
+          "bytes of the decoded UTF-8). Fixed: null under nullable:true with other rules (776b81f). Known: documents spelled 0e1 (C10 finding).",
+  "technique": "Coq theorems for numeric rules (exact Q semantics), date and uuid models + boundary-directed differential check of Validate against the statement's rule semantics (partial)",
+}
+CLAIMED["C03"] = {
+  "text": "PARTIAL (no Coq model of the multi-leaf validator yet). Validate is compared with a python transcription of the statement's set semantics - a position naming types accepts the union of "
+          "the named types (+ null when nullable), allOf = own plus transitively inherited property requirements, additionalProperties decides every unnamed key (absent/false: forbidden; true; a "
+          "JSON kind; a user type) - on generated type graphs of up to 6 types (overlapping integer ranges, objects with required/optional references, unions, nullable aliases, arrays of unions "
+          "with positional examples after them, optional self-recursion, allOf chains with 1-2 parents also used directly) and documents obtained from derived inhabitants by typed mutations, plus "
+          "dedicated families for overlapping alternatives inside arrays and allOf children without own required keys. Key shortcuts (@K: v) are not generated yet.",
+  "note": "Trusted: the python semantics in lib/check_c03.py. Differential testing, not proof. It found the shared-parent defect ([@A | @B, \"s\", 3] accepted [1,3]), fixed in e76ac42.",
+  "technique": "differential check of Validate against a denotational (set) semantics of type references/or/allOf/additionalProperties on generated type graphs (partial: no theorem)",
+}
 NOT_APPLICABLE = {}
